@@ -73,7 +73,7 @@ def monitor(b, vals, obs):
     return None
 
 
-KINDS = ["connect", "connect", "connect2", "tt", "mm", "tm", "connect", "free"]
+KINDS = ["connect", "nested", "connect2", "tt", "mm", "tm", "connect", "nested", "free", "nested"]
 
 
 def gen(pid: str, index: int, seed: int, tier: str) -> dict:
@@ -108,6 +108,21 @@ def directed() -> list[dict]:
                 "items": [{"k": "trans", "name": "T0", "ready": 0, "block": [_call("cn0.write", en=2, arg=0)]},
                           {"k": "trans", "name": "T1", "ready": 1, "block": [_call("cn0.read")]}],
                 "simul": [], "tag": "c13:directed-condcall", "expect": "any"})
+    # a transaction nested in a method and declared simultaneous with it (what condition() builds), the method called
+    # unconditionally by a wrapper that is called conditionally; second case: two nesting levels, the outer nested
+    # transaction calls nothing
+    out.append({"nin": 4, "dins": [], "leaves": [{"name": "x0", "ready": None}], "connects": [],
+                "items": [{"k": "method", "name": "M0", "ready": None, "nx": 0, "block": [
+                              {"k": "trans", "name": "N0", "ready": 0, "block": [_call("x0")]}]},
+                          {"k": "method", "name": "M1", "ready": None, "nx": 0, "block": [_call("M0")]},
+                          {"k": "trans", "name": "T0", "ready": 1, "block": [_call("M1", en=2)]}],
+                "simul": [["M0", "N0"]], "tag": "c13:directed-nested-chain", "expect": "ok"})
+    out.append({"nin": 4, "dins": [], "leaves": [{"name": "x0", "ready": None}], "connects": [],
+                "items": [{"k": "method", "name": "M0", "ready": None, "nx": 0, "block": [
+                              {"k": "trans", "name": "N0", "ready": 0, "block": [
+                                  {"k": "trans", "name": "N1", "ready": 3, "block": [_call("x0")]}]}]},
+                          {"k": "trans", "name": "T0", "ready": 1, "block": [_call("M0", en=2)]}],
+                "simul": [["M0", "N0"], ["N0", "N1"]], "tag": "c13:directed-nested2", "expect": "ok"})
     # a chain of three simultaneous transactions
     out.append({"nin": 6, "dins": [], "leaves": [{"name": f"x{i}", "ready": 3 + i} for i in range(3)], "connects": [],
                 "items": [{"k": "trans", "name": f"T{i}", "ready": i, "block": [_call(f"x{i}")]} for i in range(3)],
